@@ -229,7 +229,7 @@ func init() {
 	register(&Check{
 		ID:        "C12",
 		QuickSecs: 300, ThoroSecs: 300,
-		Rule: "complete product: 7 option kinds (bool, string, int, float64 and the optional-value forms) x 2-3 defaults x *Var or pointer form x 32 environment texts (unset, empty, valid, invalid, mixed case booleans, padded, equal to default, equal to the command-line value) x 9 command-line forms (absent, --n=v, --n v, -n v, bare --n, twice, inside a command, before an UnsetOptions wrapper command) x 3 modes x {option declared at the root, option declared on a command, variable set after New() but before the declaration}; " +
+		Rule: "complete product: 7 option kinds (bool, string, int, float64 and the optional-value forms) x 2-3 defaults x *Var or pointer form x 32 environment texts (unset, empty, valid, invalid, mixed case booleans, padded, equal to default, equal to the command-line value) x 11 command-line forms (absent, --n=v, --n v, -n v, bare --n, twice, inside a command, before an UnsetOptions wrapper command, the empty string as a separate value token) x 3 modes x {option declared at the root, option declared on a command, variable set after New() but before the declaration}; " +
 			"value, Called and CalledAs compared with the three-way precedence rule of the reference model, and again after a second Parse of an empty command line on the same object (nothing may change); distinct_nontrivial = distinct in-domain cases",
 		Assume: []string{"other environment texts are not covered; invalid numeric environment text leaves Called unspecified (zone U11) and only the value is compared"},
 		Run: func(c *RunCtx) {
@@ -280,7 +280,7 @@ func init() {
 								var clis [][]string
 								clis = append(clis, []string{}, []string{"--n"}, []string{"c", "--n"}, []string{"--other"}, []string{"w"}, []string{"w", "-x"})
 								if kdef.k != ph.Bool {
-									clis = append(clis, []string{"--n=" + v}, []string{"--n", v}, []string{"-n", v}, []string{"--n=" + v, "--n=" + v}, []string{"c", "--n=" + v})
+									clis = append(clis, []string{"--n=" + v}, []string{"--n", v}, []string{"-n", v}, []string{"--n=" + v, "--n=" + v}, []string{"c", "--n=" + v}, []string{"--n", ""}, []string{"--n", "", "--other"})
 								} else {
 									clis = append(clis, []string{"-n"}, []string{"--n", "--n"})
 								}
